@@ -719,7 +719,7 @@ func (s *SquareBracket) Evaluation(
 		return nil
 	}
 
-	if lastT.IsStringType() && !t.IsBeforeSpace {
+	if lastT.IsStringType() && p.IsParsingExpression() && !t.IsBeforeSpace {
 		p.SkipToTargetToken("]")
 		p.SetLastEvaluatedT(base.MakeAnyString())
 
@@ -727,14 +727,14 @@ func (s *SquareBracket) Evaluation(
 	}
 
 	methodT := base.GetMethodT(ctx.GetFrame(), base.TypeToString(&lastT), "[]", false)
-	if methodT != nil && !t.IsBeforeSpace {
+	if methodT != nil && p.IsParsingExpression() && !t.IsBeforeSpace {
 		p.SkipToTargetToken("]")
 		p.SetLastEvaluatedT(methodT)
 
 		return nil
 	}
 
-	if lastT.IsUnknownType() && !t.IsBeforeSpace {
+	if lastT.IsUnknownType() && p.IsParsingExpression() && !t.IsBeforeSpace {
 		p.SkipToTargetToken("]")
 		p.SetLastEvaluatedT(base.MakeUntyped())
 
